@@ -16,7 +16,12 @@ line protocol of property C12 (harness/c12.py).  Group: `Btc.EC.ops secp256k1`; 
   iss <sec|-> <T> <i>              → ok <script> <control>
   check <q> <script> <control>     → ok True|False
   const                            → the generated constants
+  pytree <P>                       → as `tree`, on ANY Python value (tree_helper's own guards)
+  outpubpy <sec|-> <P> / outprvpy <d> <P> / isspy <sec|-> <P> <i>   → the entry points on any Python value
 T is a tree in prefix form, `;`-separated: `L.<version>.<scripthex>` | `N;<T>;<T>`.
+P is a Python value in prefix form, `;`-separated: `I.<int>` | `A.t.<k>` | `A.f.<k>` (other object, truthy / falsy; k names the object on the Python side) |
+  `C.<n>.<hex>` (list of n commands serialising to hex) | `E.l` | `E.t` ([] / ()) | `O.l;<P>` | `O.t;<P>` |
+  `T.l;<P>;<P>` | `T.t;<P>;<P>` | `M.l.<k>` | `M.t.<k>` (list / tuple of k+3 elements).
 -/
 
 def ops := Btc.EC.ops Btc.EC.secp256k1
@@ -46,6 +51,48 @@ def tree? (s : String) : Option Tree :=
   match parseTree (toks.length + 1) toks with
   | some (t, []) => some t
   | _ => none
+
+def isListTok? (s : String) : Option Bool :=
+  if s == "l" then some true else if s == "t" then some false else none
+
+def parsePy : Nat → List String → Option (PyVal × List String)
+  | 0, _ => none
+  | _, [] => none
+  | fuel + 1, tok :: rest =>
+    match tok.splitOn "." with
+    | ["I", v] => (parseInt? v).map fun v => (.int v, rest)
+    | ["A", b, _] => if b == "t" then some (.atom true, rest) else if b == "f" then some (.atom false, rest) else none
+    | ["C", n, h] =>
+      match n.toNat?, fromHex? h with
+      | some n, some b => some (.cmds n b, rest)
+      | _, _ => none
+    | ["E", l] => (isListTok? l).map fun l => (.nil l, rest)
+    | ["M", l, k] =>
+      match isListTok? l, k.toNat? with
+      | some l, some k => some (.many l k, rest)
+      | _, _ => none
+    | ["O", l] =>
+      match isListTok? l, parsePy fuel rest with
+      | some l, some (x, rest') => some (.one l x, rest')
+      | _, _ => none
+    | ["T", l] =>
+      match isListTok? l, parsePy fuel rest with
+      | some l, some (x, rest') =>
+        match parsePy fuel rest' with
+        | some (y, rest'') => some (.two l x y, rest'')
+        | none => none
+      | _, _ => none
+    | _ => none
+
+def py? (s : String) : Option PyVal :=
+  let toks := s.splitOn ";"
+  match parsePy (toks.length + 1) toks with
+  | some (v, []) => some v
+  | _ => none
+
+def rTree : Except Err (List LeafInfo × Bytes) → String
+  | .ok (ls, r) => s!"ok {toHex r} " ++ "|".intercalate (ls.map fun ((v, s), p) => s!"{v}:{toHex s}:{toHex p}")
+  | .error e => s!"err {e.name}"
 
 def optTree? (s : String) : Option (Option Tree) :=
   if s == "-" then some none else (tree? s).map some
@@ -84,6 +131,25 @@ def handle (toks : List String) : String :=
       let (ls, r) := treeHelper TH t
       s!"ok {toHex r} " ++ "|".intercalate (ls.map fun ((v, s), p) => s!"{v}:{toHex s}:{toHex p}")
     | none => "bad-op"
+  | ["pytree", p] =>
+    match py? p with
+    | some v => rTree (treeHelperPy TH v)
+    | none => "bad-op"
+  | ["outpubpy", sec, p] =>
+    match optHex? sec, py? p with
+    | some sec, some v => rKey (outputPubkeyPy ops TH sec v)
+    | _, _ => "bad-op"
+  | ["outprvpy", d, p] =>
+    match parseInt? d, py? p with
+    | some d, some v => rInt (outputPrvkeyPy ops TH d v)
+    | _, _ => "bad-op"
+  | ["isspy", sec, p, i] =>
+    match optHex? sec, py? p, parseInt? i with
+    | some sec, some v, some i =>
+      match inputScriptSigPy ops TH sec v i with
+      | .ok (s, c) => s!"ok {toHex s} {toHex c}"
+      | .error e => rErr e
+    | _, _, _ => "bad-op"
   | ["leafhash", v, s] =>
     match parseInt? v, fromHex? s with
     | some v, some s =>
